@@ -14,7 +14,21 @@ Statement table (exact source text -> model step); anything else raises:
   self._eval_cache[str(prefix)] = evaluated         (the path memo: same memo in the model)
   self._eval_cache_id[utils.persistent_id(cfgobj)] = evaluated              -> finish p v st
   return evaluated                                  -> Ok (v, st)
-Proofs/SrcEvalOk.v proves the generated definition equal to Model.Eval.eval_node."""
+Proofs/SrcEvalOk.v proves the generated definition equal to Model.Eval.eval_node.
+
+Extension (round 7): Config.check_missing, Config.__init__ and EvalContext.evaluate, same fail-closed exact-text tables:
+  check_missing:  missing = []; for path, node in cfg.ayns.nodes_with_paths(): if isinstance(node, RequiredNode): missing.append(repr(path))
+                                                    -> map fst (filter (fun pn => is_required (snd pn)) (nodes_with_paths [] t false))
+                  if missing: raise ValueError(...) -> (the caller's match: [] continues, otherwise Err EMissing)
+  __init__:       argument normalisation, self._source / self._user_data bookkeeping          (no model step)
+                  if config_dict: ... else: evaluated = {}    (CONVENTION: the empty mapping evaluates to the empty dict either way)
+                  Config.check_missing(config_dict)           -> match check_missing t with [] => ... | m => Err EMissing (hd [] m)
+                  pre_evaluate = copy.deepcopy(config_dict)   -> let t' := recopy t
+                  if eval_ctx is None: eval_ctx = EvalContext()   (EvalContext.__init__ must set _require_all_safe = False -> ras = false)
+                  evaluated = eval_ctx.evaluate(pre_evaluate) -> evaluate pe fe false t'
+  evaluate:       self._cfg = config_dict; both caches cleared BEFORE evaluate_node(self.cfg) -> ev t pe fe fuel ras t [] st0
+                  (the fuel 2 * nsize t + 2 is the model's own; CONVENTION)
+The ORDER is what is translated: the scan runs on the tree the caller passed, before the copy, and the copy - not the original - is evaluated."""
 import sys, os, ast
 
 sys.path.insert(0, os.path.dirname(os.path.abspath(__file__)))
@@ -23,6 +37,94 @@ from translate_src import find_func, Unsupported  # noqa: E402
 
 def U(x):
     return ast.unparse(x)
+
+
+def body_of(fn):
+    return [s for s in fn.body if not (isinstance(s, ast.Expr) and isinstance(s.value, ast.Constant))]
+
+
+def check_missing_src():
+    st = body_of(find_func('config.py', ['Config', 'check_missing']))
+    if len(st) != 3 or U(st[0]) != 'missing = []':
+        raise Unsupported('check_missing: unexpected shape')
+    loop, tail = st[1], st[2]
+    if not (isinstance(loop, ast.For) and U(loop.target) == '(path, node)' and U(loop.iter) == 'cfg.ayns.nodes_with_paths()' and not loop.orelse and len(loop.body) == 1):
+        raise Unsupported('check_missing: loop header: ' + U(loop)[:100])
+    c = loop.body[0]
+    if not (isinstance(c, ast.If) and U(c.test) == 'isinstance(node, RequiredNode)' and not c.orelse and len(c.body) == 1 and U(c.body[0]) == 'missing.append(repr(path))'):
+        raise Unsupported('check_missing: loop body: ' + U(c)[:100])
+    if not (isinstance(tail, ast.If) and U(tail.test) == 'missing' and not tail.orelse and len(tail.body) == 1 and isinstance(tail.body[0], ast.Raise)
+            and U(tail.body[0].exc.func) == 'ValueError' and 'missing' in U(tail.body[0].exc)):
+        raise Unsupported('check_missing: the report: ' + U(tail)[:100])
+    # defaults of nodes_with_paths: prefix=None, include_self=False (read from the source)
+    nwp = find_func('nodes/composed.py', ['ComposedNode', 'ayns', 'nodes_with_paths'])
+    names = [a.arg for a in nwp.args.args]
+    dflt = dict(zip(names[len(names) - len(nwp.args.defaults):], [U(d) for d in nwp.args.defaults]))
+    if dflt.get('prefix') != 'None' or dflt.get('include_self') != 'False' or dflt.get('recursive') != 'True' or dflt.get('allow_duplicates') != 'True':
+        raise Unsupported('nodes_with_paths: defaults changed: ' + repr(dflt))
+    return 'map fst (filter (fun pn => is_required (snd pn)) (nodes_with_paths [] t false))'
+
+
+def evaluate_src():
+    init = body_of(find_func('eval_context.py', ['EvalContext', '__init__']))
+    ras = [U(s) for s in init if 'self._require_all_safe' in U(s)]
+    if ras != ['self._require_all_safe = False']:
+        raise Unsupported('EvalContext.__init__: _require_all_safe: ' + repr(ras))
+    st = body_of(find_func('eval_context.py', ['EvalContext', 'evaluate']))
+    seen, done = [], False
+    for s in st:
+        src = U(s)
+        if src in ('self._cfg = config_dict', 'self._eval_cache.clear()', 'self._eval_cache_id.clear()'):
+            if done: raise Unsupported('evaluate: set-up after the evaluation')
+            seen.append(src)
+        elif src in ('self._ecfg = EvalContext.PartialChild(NodePath(), self, self._cfg)', 'self.user_data = Bunch()'):
+            pass
+        elif isinstance(s, ast.Try) and len(s.body) == 1 and U(s.body[0]) == 'ret = self.evaluate_node(self.cfg)' and not s.handlers and not s.orelse \
+                and all(U(f) in ('self._eval_cache.clear()', 'self._eval_cache_id.clear()', 'self._cfg = None', 'self._ecfg = None') for f in s.finalbody):
+            if sorted(seen) != sorted(['self._cfg = config_dict', 'self._eval_cache.clear()', 'self._eval_cache_id.clear()']):
+                raise Unsupported('evaluate: the root / the cleared caches before evaluate_node: ' + repr(seen))
+            done = True
+        elif src == 'return ret':
+            if not done: raise Unsupported('evaluate: returns before evaluating')
+        else:
+            raise Unsupported('evaluate: statement outside the table: ' + src[:120])
+    cfgprop = body_of(find_func('eval_context.py', ['EvalContext', 'cfg']))
+    if [U(x) for x in cfgprop][-1:] != ['return self._cfg'] or any(not (isinstance(x, ast.If) and U(x.test) == 'self._cfg is None' and isinstance(x.body[0], ast.Raise)) for x in cfgprop[:-1]):
+        raise Unsupported('EvalContext.cfg: ' + repr([U(x) for x in cfgprop]))
+    return 'ev t pe fe (2 * nsize t + 2) ras t [] st0'
+
+
+def init_src():
+    st = body_of(find_func('config.py', ['Config', '__init__']))
+    srcs = [U(s) for s in st]
+    pre = ["if config_dict is not None and (not isinstance(config_dict, dict)):\n    raise ValueError('dict or None expected')",
+           'if not isinstance(config_dict, ConfigDict):\n    config_dict = ConfigDict(config_dict)', 'self._source = config_dict', 'self._user_data = None']
+    if srcs[:4] != pre or len(st) != 6 or srcs[5] != 'super().__init__(evaluated)':
+        raise Unsupported('Config.__init__: unexpected shape: ' + repr(srcs)[:300])
+    br = st[4]
+    if not (isinstance(br, ast.If) and U(br.test) == 'config_dict' and [U(x) for x in br.orelse] == ['evaluated = {}']):
+        raise Unsupported('Config.__init__: the branch on an empty mapping')
+    out, tree, checked, copied, evaluated = None, 't', False, False, False
+    for s in br.body:
+        src = U(s)
+        if src == 'Config.check_missing(config_dict)':
+            if copied or evaluated: raise Unsupported('Config.__init__: the scan does not come first')
+            checked = True
+        elif src == 'pre_evaluate = copy.deepcopy(config_dict)':
+            if not checked: raise Unsupported('Config.__init__: copy before the scan')
+            copied = True
+        elif src == 'if eval_ctx is None:\n    eval_ctx = EvalContext()':
+            pass
+        elif src == 'evaluated = eval_ctx.evaluate(pre_evaluate)':
+            if not (checked and copied): raise Unsupported('Config.__init__: evaluation before scan and copy')
+            evaluated = True
+        elif src == 'self._user_data = eval_ctx.user_data':
+            if not evaluated: raise Unsupported('Config.__init__: user data before the evaluation')
+        else:
+            raise Unsupported('Config.__init__: statement outside the table: ' + src[:120])
+    if not evaluated:
+        raise Unsupported('Config.__init__: nothing is evaluated')
+    return "match check_missing t with [] => (let t' := recopy t in evaluate pe fe false t') | m => Err EMissing (hd [] m) end"
 
 
 def main(out):
@@ -67,10 +169,15 @@ def main(out):
         raise Unsupported('evaluate_node: statement outside the table: ' + src[:120])
 
     body = block(0, 'st', None)
+    cm, cfg, evl = check_missing_src(), init_src(), evaluate_src()
     text = ('(* GENERATED by tools/translate_eval.py from the Python source in the working tree of /repo - do not edit *)\n'
             'From AY Require Import Model.Eval.\nOpen Scope Z_scope.\nModule SrcE.\n'
             'Definition eval_node (on_evaluate : bool -> node -> path -> est -> res (value * est)) (ras : bool) (n : node) (p : path) (st : est) : res (value * est) :=\n  '
-            + body + '.\nEnd SrcE.\n')
+            + body + '.\n'
+            'Definition check_missing (t : node) : list path :=\n  ' + cm + '.\n'
+            'Definition evaluate (pe : penv) (fe : fenv) (ras : bool) (t : node) : res (value * est) :=\n  ' + evl + '.\n'
+            'Definition config (pe : penv) (fe : fenv) (t : node) : res (value * est) :=\n  ' + cfg + '.\n'
+            'End SrcE.\n')
     old = open(out).read() if os.path.exists(out) else None
     if old != text:
         open(out, 'w').write(text)
